@@ -254,7 +254,7 @@ class SynthDef(metaclass=MetaSynthDef):
             x.annotation if x.annotation != empty else None for x in params]
         annotations = annotations[skip_args:]
 
-        rates += [0] * (len(names) - len(rates))
+        rates = list(rates) + [0] * (len(names) - len(rates))
         rates = [x if x is not None else 0.0 for x in rates]
 
         rate_names = self._RATE_NAMES
